@@ -956,6 +956,8 @@ class Interp:
                     return self.from_real(raw.__func__)
                 if isinstance(raw, types.FunctionType):
                     return BoundMethod(obj, self.mark_owner(raw, self.owner_of(cls, name)))
+                if hasattr(raw, "__wrapped__") and type(raw).__name__ == "_lru_cache_wrapper":
+                    return BoundMethod(obj, self.mark_owner(raw.__wrapped__, self.owner_of(cls, name)))
                 if hasattr(raw, "__wrapped__") and isinstance(getattr(raw, "__wrapped__"), types.FunctionType):
                     raise Unsupported("decorated attribute %s" % name)
                 return self.from_real(raw)
@@ -994,6 +996,9 @@ class Interp:
             return self.from_real(getattr(obj, name))
         if isinstance(obj, tuple) and len(obj) == 2 and obj[0] == "np":
             return ("np", obj[1] + "." + name)
+        if obj is int and name == "from_bytes":
+            from .pybuiltins import IntFromBytes
+            return IntFromBytes()
         if isinstance(obj, type):
             raw = inspect.getattr_static(obj, name)
             if isinstance(raw, classmethod):
@@ -1126,7 +1131,7 @@ class Interp:
             if init is not None and owner is not object:
                 self.call_real(init, [obj] + list(args), kwargs, lineno, owner=owner)
             return obj
-        if cls in (int, bool):
+        if cls in pybuiltins.BUILTINS:
             return pybuiltins.call_builtin(self, cls, args, kwargs, lineno)
         raise Unsupported("construction of %s" % cls.__qualname__)
 
@@ -1150,6 +1155,9 @@ class Interp:
             self.bind_closure(fn, env)
             self.bind_params(node, env, list(args), dict(kwargs))
             return self.exec_body_as_function(node, env, info["qualname"])
+        if hasattr(fn, "__wrapped__") and type(fn).__name__ == "_lru_cache_wrapper":
+            M.use("functools.lru_cache / cached_property = pure memoisation (receiver fields unmodified between calls)")
+            return self.call_real(fn.__wrapped__, args, kwargs, lineno, owner)
         if hasattr(fn, "__wrapped__"):
             raise Unsupported("decorated callable %s" % qn)
         raise Unsupported("call to %s (no contract, no model)" % qn)
